@@ -9,7 +9,7 @@ This harness ties the model to /repo's loaders on every run:
      loader, page sizes 16 … 64K and odd ones set through conf.System.pagesize; unaligned, adjacent,
      page-sharing, bss, clobbering and malformed layouts; REL/RELA relocation sections) and every file
      under tests/samples are loaded by the real `amoco.system.core.load_program` (load_real.py) and by
-     the compiled model (drv_mem, ops load.*) fed with the tables an *independent* reader (load_oracle.py,
+     the compiled model (drv_load, ops load.*) fed with the tables an *independent* reader (load_oracle.py,
      Python struct, no amoco) extracts from the same bytes; compared: the object list of the memory
      zone (address, raw bytes / symbol bytes, endianness), its cache, the program counter, the bytes of
      every segment's page-rounded extent read back through `mmap.read`, and the fetch window
@@ -517,11 +517,11 @@ def corpus(run):
 def main(tier):
     ck = Check("C15", tier)
     quick = tier == "quick"
-    broken = ck.build_and_audit(["Amoco.Props.C15", "drv_mem"])
+    broken = ck.build_and_audit(["Amoco.Props.C15", "drv_load"])
     fresh_amoco()
     R.setup()
     try:
-        drv = Driver("drv_mem")
+        drv = Driver("drv_load")
     except InternalError as e:
         ck.report("C15:proof-obligation", "driver not built: %s" % e, "proof-obligation", "\n".join(broken)[:2000],
                   failing_input_found=False)
@@ -606,7 +606,7 @@ def main(tier):
         "the zone object lists are compared in full)"]
     ck.trusted += ["harness/load_oracle.py (independent ELF / PE / Mach-O / HEX / SREC readers; declared mapping and LoadableOK re-stated in Python)",
                    "harness/load_real.py canonical dump of the task's MemoryZone",
-                   "compiled Lean driver drv_mem (evaluation of Amoco.Loader definitions, Zone.check, decide LoadableOK)"]
+                   "compiled Lean driver drv_load (evaluation of Amoco.Loader definitions, Zone.check, decide LoadableOK)"]
     return ck.finish("hand-written ELF corpus (one layout per proof case × 4 class/byte-order/machine combinations × 2 page sizes) + every file under "
                      "tests/samples (ELF with several configured page sizes) + seeded synthesised ELF images (1..4 PT_LOAD, placement classes "
                      "far / next-page / adjacent-byte / share-page / unaligned / overlap / descending, file offsets congruent / same-delta / "
@@ -625,7 +625,7 @@ def replay(path):
     ck = Check("C15", "replay")
     import tempfile
     ck.replay_path = lambda: os.path.join(tempfile.mkdtemp(prefix="c15-replay-"), "again.json")
-    drv = Driver("drv_mem")
+    drv = Driver("drv_load")
     run = Runner(ck, drv)
     f = case["file"]
     if os.path.exists(f):
